@@ -22,12 +22,19 @@ SETUP_LINES = []
 TEARDOWN_LINES = []
 IMPL_TIMEOUT = 6000
 ASAN_TIER = 'thorough'          # engine: run the cases of ASAN_KINDS again under the sanitizer build
-ASAN_KINDS = ['mutate', 'confuse', 'deepspec', 'selfref']
+ASAN_KINDS = ['mutate', 'confuse', 'deepspec', 'selfref', 'malformed']
 
 TRAVERSALS = ['flatten', 'flatten_with_path', 'flatten_with_accessor', 'iter', 'leaves', 'structure', 'paths', 'accessors',
               'map', 'map_with_path', 'flatten_up_to', 'broadcast_prefix', 'from_collection']
 KINDS = ['list', 'dict', 'odict', 'ddict', 'deque', 'custom', 'nested']
 MUTATIONS = ['del-before', 'del-after', 'clear', 'append', 'replace']
+MALFORMED_TRAVERSALS = ['flatten', 'flatten_with_path', 'flatten_with_accessor', 'iter', 'leaves', 'structure', 'paths',
+                        'accessors', 'map', 'map_with_path', 'map_with_accessor', 'flatten_one_level', 'from_collection',
+                        'flatten_up_to', 'broadcast_prefix', 'transpose_map_with_path']
+# (children, entries) shapes; 'gen:n' = a generator of n children; entries 'E:k' = a tuple of k entries
+MALFORMED_RETURNS = ['c3-E2', 'c4-E3', 'c3-E0', 'c12-E3', 'c300-E2', 'gen:5000-E1', 'c2-E3', 'c0-E1', 'c2-E40', 'c3-Elist3',
+                     'c3-Elist2', 'c3-Egen3', 'c3-Eint', 'c3-Estr', 'cint-E3', 'cNone-E0', 'cstr-E3', 'cdict-E2', 'len0', 'len1',
+                     'len4', 'notuple', 'list3', 'c3-E2-nested', 'c5-E2-deep']
 WALKER_NAMES = ['treespec.cpp:PathsImpl', 'treespec.cpp:AccessorsImpl', 'treespec.cpp:BroadcastToCommonSuffixImpl']
 CHAIN_KINDS = ['T', 'l', 'D', 'O', 'DD', 'Q', 'NT', 'U']
 
@@ -65,6 +72,10 @@ def generate(gen, tier):
     batch = 60
     for i in range(0, len(cells), batch):
         cases.append({'lines': [], 'o': {'kind': 'mutate', 'cells': [list(c) for c in cells[i:i + batch]]}})
+    # (e) malformed returns of a registered flatten function x traversal
+    mcells = [(t, r) for t in MALFORMED_TRAVERSALS for r in MALFORMED_RETURNS]
+    for i in range(0, len(mcells), 24):
+        cases.append({'lines': [], 'o': {'kind': 'malformed', 'cells': [list(c) for c in mcells[i:i + 24]]}})
     # (c) argument confusion
     cases.append({'lines': [], 'o': {'kind': 'confuse', 'seed': rng.randrange(10**9), 'n': 400 if tier == 'quick' else 6000}})
     # (d) deep treespecs
@@ -88,7 +99,7 @@ def distribution(cases):
     d = {}
     for c in cases:
         k = c['o']['kind']
-        d[k] = d.get(k, 0) + (len(c['o']['cells']) if k == 'mutate' else 1)
+        d[k] = d.get(k, 0) + (len(c['o']['cells']) if k in ('mutate', 'malformed') else 1)
     return {'case_kinds': d, 'grid': {'traversals': len(TRAVERSALS), 'kinds': len(KINDS), 'triggers': 2, 'positions': 3,
                                       'mutations': len(MUTATIONS)}}
 
@@ -104,7 +115,8 @@ def oracle(impl, o):
         if status != 'ok':
             return [{'key': f'{kind}-crash', 'what': f'{o["req"]}: {status}', 'stderr': text[-600:]}]
         return []
-    return {'depth': _depth, 'selfref': _selfref, 'mutate': _mutate, 'confuse': _confuse, 'deepspec': _deepspec}[kind](impl, o)
+    return {'depth': _depth, 'selfref': _selfref, 'mutate': _mutate, 'confuse': _confuse, 'deepspec': _deepspec,
+            'malformed': _malformed}[kind](impl, o)
 
 
 def _ensure_classes():
@@ -434,6 +446,110 @@ def _mutate(impl, o):
         elif status == 'ok' and "'odd_leaves': []" not in text:
             fails.append({'key': f'mutation-garbage-{key}', 'what': f'{trav} over a mutated {kind} ({mutation}, {pos}, {trig}) '
                           f'returned unexpected objects: {text[:200]}', 'cell': cell})
+    return fails
+
+
+def _malformed_return(M, shape):
+    """what the flatten function of class Mal returns for this cell"""
+    def kids(spec):
+        if spec.startswith('gen:'):
+            n = int(spec[4:])
+            return (i for i in range(n))
+        if spec == 'int':
+            return 7
+        if spec == 'None':
+            return None
+        if spec == 'str':
+            return 'abc'
+        if spec == 'dict':
+            return {'p': 1, 'q': 2}
+        return [i for i in range(int(spec))]
+
+    def ents(spec):
+        if spec.startswith('list'):
+            return [f'e{i}' for i in range(int(spec[4:]))]
+        if spec.startswith('gen'):
+            return (f'e{i}' for i in range(int(spec[3:])))
+        if spec == 'int':
+            return 5
+        if spec == 'str':
+            return 'xyz'
+        return tuple(f'e{i}' for i in range(int(spec)))
+    if shape == 'len0':
+        return ()
+    if shape == 'len1':
+        return ([1, 2],)
+    if shape == 'len4':
+        return ([1, 2], None, ('a', 'b'), 0)
+    if shape == 'notuple':
+        return 42
+    if shape == 'list3':
+        return [[1, 2], None, ('a', 'b')]
+    parts = shape.split('-')
+    c, e = parts[0][1:], parts[1][1:]
+    return (kids(c), None, ents(e))
+
+
+def _malformed(impl, o):
+    """a registered flatten function returning inconsistent (children, metadata, entries): every traversal must raise a Python
+    exception (or succeed), never read outside the entries tuple / crash / hang"""
+    import optree
+    M = _ensure_classes()
+    fails = []
+
+    class Mal:
+        shape = 'c3-E2'
+
+    def mal_flatten(x):
+        return _malformed_return(M, Mal.shape)
+    try:
+        optree.register_pytree_node(Mal, mal_flatten, lambda md, kids: Mal(), namespace='c16mal')
+    except ValueError:
+        pass
+
+    def run_cell(trav, shape):
+        Mal.shape = shape.replace('-nested', '').replace('-deep', '')
+        t = Mal()
+        if shape.endswith('-nested'):
+            t = {'k': [Mal(), (1, Mal())], 'z': Mal()}
+        elif shape.endswith('-deep'):
+            for _ in range(30):
+                t = [t, 0]
+        kw = {'namespace': 'c16mal'}
+        ident = lambda x: x      # noqa: E731
+        calls = {
+            'flatten': lambda: optree.tree_flatten(t, **kw),
+            'flatten_with_path': lambda: optree.tree_flatten_with_path(t, **kw),
+            'flatten_with_accessor': lambda: optree.tree_flatten_with_accessor(t, **kw),
+            'iter': lambda: list(optree.tree_iter(t, **kw)),
+            'leaves': lambda: optree.tree_leaves(t, **kw),
+            'structure': lambda: optree.tree_structure(t, **kw),
+            'paths': lambda: optree.tree_paths(t, **kw),
+            'accessors': lambda: optree.tree_accessors(t, **kw),
+            'map': lambda: optree.tree_map(ident, t, **kw),
+            'map_with_path': lambda: optree.tree_map_with_path(lambda p, x: x, t, **kw),
+            'map_with_accessor': lambda: optree.tree_map_with_accessor(lambda a, x: x, t, **kw),
+            'flatten_one_level': lambda: optree.tree_flatten_one_level(t, **kw),
+            'from_collection': lambda: optree.treespec_from_collection(t, **kw),
+            'flatten_up_to': lambda: optree.tree_structure([0, 0], **kw).flatten_up_to([t, t]),
+            'broadcast_prefix': lambda: optree.tree_broadcast_prefix(t, t, **kw),
+            'transpose_map_with_path': lambda: optree.tree_transpose_map_with_path(lambda p, x: (x, x), t, **kw),
+        }
+        try:
+            calls[trav]()
+            return 'returned'
+        except RecursionError:
+            return 'RecursionError'
+        except Exception as e:   # noqa: BLE001
+            return type(e).__name__
+    for trav, shape in o['cells']:
+        status, text = M.in_child(lambda: run_cell(trav, shape), timeout=60)
+        if status.startswith('crash') or status == 'timeout':
+            fails.append({'key': f'malformed-crash-{trav}', 'what': f'{trav} over a custom node whose flatten function returns '
+                          f'{shape}: {status}', 'cell': [trav, shape], 'stderr': text[-600:]})
+        elif status == 'ok' and ('InternalError' in text or 'SystemError' in text):
+            fails.append({'key': f'malformed-internal-{trav}', 'what': f'{trav} over a custom node whose flatten function returns '
+                          f'{shape}: {text[:120]}', 'cell': [trav, shape]})
     return fails
 
 
